@@ -130,6 +130,22 @@ pub fn edits(prog: &Program, tier: Tier) -> Vec<Edit> {
     out
 }
 
+/// recorded cause: the un-aliased right side of a join reads the table the left side reads (`from t | … | join (from t | …)`):
+/// both relations are called `t`, their columns share one namespace and the later one shadows the earlier
+fn same_named_relations_joined(text: &str) -> bool {
+    let left = text.lines().find_map(|l| l.trim().strip_prefix("from ")).map(|r| r.split(|c: char| c == ' ' || c == '|').next().unwrap_or("").to_string());
+    let Some(left) = left else { return false };
+    text.lines().any(|l| {
+        let l = l.trim();
+        let Some(rest) = l.strip_prefix("join ") else { return false };
+        let rest = rest.strip_prefix("side:left ").unwrap_or(rest);
+        match rest.strip_prefix("(from ") {
+            Some(r) => r.split(|c: char| c == ' ' || c == '|' || c == ')').next() == Some(left.as_str()),
+            None => rest.split(' ').next() == Some(left.as_str()),
+        }
+    })
+}
+
 #[derive(Debug)]
 pub enum Verdict {
     Rejected(String),
@@ -174,6 +190,43 @@ pub fn run(tier: Tier) -> i32 {
         Edit { kind: "E5-scalar-as-relation", text: "from t | select {a, b} | append 'x'\n".into(), what: "append a string".into() },
         Edit { kind: "E5-scalar-as-relation", text: "let k = 5\nfrom k\n".into(), what: "from a let-bound number".into() },
     ];
+    // E2 across relation shapes: the left relation has a plain column `b`; the right relation — aliased or not,
+    // a table, a let, an inline pipeline whose `b` is selected, renamed, derived or aggregated — has one too
+    let mut fixed = fixed;
+    {
+        let lefts = ["from t | select {a, b}\n", "let q = (from t | select {a, b})\nfrom q\n", "from t | select {a, b} | filter a > 0\n", "from [{a = 1, b = 2}]\n"];
+        let rights = [
+            "(from u | select {a, b = d})",
+            "(from u | select {a, d} | derive {b = d + 1})",
+            "(from u | group a (aggregate {b = sum d}))",
+            "(from u | select {a, d} | group a (aggregate {b = max d}) | sort a)",
+            "(from [{a = 1, b = 5}])",
+            "(from t | select {a, b} | take 3)",
+            "(from u | select {a, b = d} | filter b > 0 | select {b, a})",
+        ];
+        let lets = ["let w = (from u | select {a, b = d})\n", "let w = (from u | group a (aggregate {b = count this}))\n"];
+        let uses = ["filter b > 1", "select {b}", "sort {b}", "derive {zz = b + 1}", "aggregate {zz = sum b}", "group {b} (aggregate {zz = count this})", "select {a2 = t.a, b}"];
+        for l in lefts {
+            for side in ["", "side:left "] {
+                for (ri, r) in rights.iter().enumerate() {
+                    for alias in ["", "r="] {
+                        for (ui, u) in uses.iter().enumerate() {
+                            if ui == 6 && !l.starts_with("from t") {
+                                continue;
+                            }
+                            let _ = ri;
+                            fixed.push(Edit { kind: "E2-ambiguous-bare-name", text: format!("{l}join {side}{alias}{r} (==a)\n{u}\n"), what: "bare `b` matches a column of each joined relation".into() });
+                        }
+                    }
+                }
+                for w in lets {
+                    for u in &uses[..4] {
+                        fixed.push(Edit { kind: "E2-ambiguous-bare-name", text: format!("{w}{l}join {side}w (==a)\n{u}\n"), what: "bare `b` matches a column of each joined relation".into() });
+                    }
+                }
+            }
+        }
+    }
     // base programs must themselves be accepted (otherwise an edit proves nothing)
     let base_ok: Vec<bool> = par_map(&progs, || (), |_, (p, _, _)| matches!(verdict(&pr_program(p)), Verdict::Accepted(_)));
     let mut cases: Vec<(Edit, usize)> = vec![];
@@ -206,7 +259,7 @@ pub fn run(tier: Tier) -> i32 {
             }
             Verdict::Accepted(sql) => {
                 run.violate(
-                    Some(format!("accepted:{}", e.kind)),
+                    Some(if e.kind == "E2-ambiguous-bare-name" && same_named_relations_joined(&e.text) { "accepted:E2-same-named-relations-joined".to_string() } else { format!("accepted:{}", e.kind) }),
                     format!("{} ({}) :: {} :: compiled to {}", e.kind, e.what, e.text.trim().replace('\n', " | "), sql),
                     json!({"driver":"EDIT","edit": e.kind, "what": e.what, "source": e.text, "sql_generic": sql,
                            "base_choices": if *pi == usize::MAX { json!(null) } else { json!(progs[*pi].1) }}),
